@@ -386,7 +386,8 @@ result = {"mismatch": mismatch, "count": count}
 
 
 def run(rounds=2, big=False, seed=0, only=()):
-    r = oracle().req(op="exec", code=CODE, env={"rounds": Oracle.enc(rounds), "big": Oracle.enc(big), "seed": Oracle.enc(seed), "verif": Oracle.enc(VERIF), "only": Oracle.enc(list(only))})
+    # the suites have their own wall-clock alarm (240 s each, 900 s each when big); the request limit must not cut them short
+    r = oracle().req(_timeout=(7 * 900 + 60) if big else (7 * 240 + 60), op="exec", code=CODE, env={"rounds": Oracle.enc(rounds), "big": Oracle.enc(big), "seed": Oracle.enc(seed), "verif": Oracle.enc(VERIF), "only": Oracle.enc(list(only))})
     if not r.get("ok"):
         return {"error": r.get("error"), "tb": r.get("tb")}
     return Oracle.dec(r["value"])
